@@ -254,15 +254,6 @@ impl<const NB_PROOFS: usize> LightAggregator<NB_PROOFS> {
 
         srs.downsize_from_circuit(&default_aggregator_circuit);
 
-        let nb_coms_per_proof = {
-            let cs = inner_vk.cs();
-            cs.num_fixed_columns()
-                + cs.num_advice_columns()
-                + cs.num_instance_columns()
-                + cs.permutation().get_columns().len()
-                + 3 * cs.lookups().len()
-        };
-
         let aggregator_vk = keygen_vk(srs, &default_aggregator_circuit)?;
         let aggregator_pk = keygen_pk(aggregator_vk.clone(), &default_aggregator_circuit)?;
 
@@ -270,7 +261,10 @@ impl<const NB_PROOFS: usize> LightAggregator<NB_PROOFS> {
             inner_vk: inner_vk.clone(),
             aggregator_vk,
             aggregator_pk,
-            lagrange_commitments: srs.g_lagrange()[..(nb_coms_per_proof * NB_PROOFS)].to_vec(),
+            // The IPA pairs one Lagrange commitment with every committed scalar of the
+            // accumulator RHS (the variable bases of all inner proofs plus the fixed bases).
+            // Their number is bounded by the domain size, so we keep all of them.
+            lagrange_commitments: srs.g_lagrange().to_vec(),
         })
     }
 
